@@ -40,6 +40,7 @@ mod c20_more;
 mod c20_src;
 mod datax;
 mod enc;
+mod walcov;
 mod out;
 mod redisx;
 mod rng;
@@ -56,7 +57,7 @@ pub mod cfg {
     /// WalRotator::new + rotate: true = a restarted rotator re-creates the highest existing file name
     pub const CODE_RESTART_REUSES_SEQ: bool = false;
     /// WAL on-disk format: 2 = entry checksum over len|timestamp|data, empty entry rejected
-    pub const CODE_WAL_FORMAT: u8 = 2;
+    pub const CODE_WAL_FORMAT: u8 = redis_sim::streaming::wal::WAL_VERSION;
     /// CrashSimulator::crashed_nodes / recovering_nodes: true = sorted by node id (3012c3c),
     /// false = HashMap iteration order (the pinned code); sent to the C20 model with every `RUN dst`
     pub const CODE_DST_SORTS_NODES: bool = true;
